@@ -59,6 +59,11 @@ class AsyncGraphNodeExecutor:
         """
         # Translate renamed input keys back to original inner graph names
         inner_inputs = map_inputs_to_func_params(node, inputs)
+        # Resume values addressed to this nested graph ("<node name>.<key>", see PauseInfo.response_key)
+        prefix = f"{node.name}."
+        for key, value in state.values.items():
+            if key.startswith(prefix):
+                inner_inputs[key[len(prefix) :]] = value
 
         map_config = node.map_config
 
